@@ -53,6 +53,31 @@ def pmap(fn, items, chunksize=None):
     return list(pool().imap(fn, items, chunksize))
 
 
+def pmap_timeout(fn, items, timeout):
+    """Like pmap, one task per item, in batches of one item per worker with a common generous wall-clock deadline.
+    Returns (result | TIMEOUT) per item.  A worker that exceeds the limit is stuck in code the fuel counter does not
+    see (e.g. inside `re`): the pool is rebuilt before the next batch."""
+    import time
+    items = list(items)
+    out = [None] * len(items)
+    for lo in range(0, len(items), NPROC):
+        batch = [(i, pool().apply_async(fn, (items[i],))) for i in range(lo, min(len(items), lo + NPROC))]
+        deadline = time.time() + timeout
+        stuck = False
+        for i, r in batch:
+            try:
+                out[i] = r.get(max(0.01, deadline - time.time()))
+            except mp.TimeoutError:
+                out[i] = TIMEOUT
+                stuck = True
+        if stuck:
+            close_pool()
+    return out
+
+
+TIMEOUT = "__wall_clock_limit__"
+
+
 def pmap_iter(fn, items, chunksize=16):
     if NPROC <= 1:
         for x in items:
